@@ -59,6 +59,19 @@ def _neg_contains(f, bb, setname):
     return False
 
 
+def removes_via_helper(P, f, t):
+    """Set names from which a workspace helper called at `t` unconditionally removes/takes an element."""
+    g = P.get(t.get("f") or "")
+    if g is None or g is f:
+        return set()
+    out = set()
+    rets = g.return_blocks()
+    for bi, u, op, s_ in set_ops(g):
+        if op in ("remove", "take") and all(flow.dominates(g, bi, r) for r in rets):
+            out.add(s_)
+    return out
+
+
 def check_setmove(res, P):
     n = 0
     for f in promotion_functions(P):
@@ -95,6 +108,10 @@ def check_setmove(res, P):
                 for bj, u, op2, s2 in ops:
                     if s2 == b and op2 in ("remove", "take") and bj != bi and flow.dominates(f, bj, bi):
                         ev = True
+                if not ev:
+                    for bj, u in f.calls():
+                        if bj != bi and flow.dominates(f, bj, bi) and b in removes_via_helper(P, f, u):
+                            ev = True
                 if not ev and _neg_contains(f, bi, b):
                     ev = True
                 if not ev:
